@@ -292,7 +292,7 @@ class C14(Spec):
         # (b) adjacency
         for i, ch in enumerate(chunks(adjacency_ops(rng), 400)): cs.append(Case(f'adj{i}', ch))
         # (c) random
-        nrand = (12000 if quick else 300000) * boost
+        nrand = (16000 if quick else 300000) * boost
         lines = [gen_random_op(rng, 8 if quick else 14) for _ in range(nrand)]
         for i, ch in enumerate(chunks(lines, 500 if quick else 2000)): cs.append(Case(f'rand{i}', ch))
         # (d) outside the grammar, forked
